@@ -122,9 +122,19 @@ def ev_tucker(case, viol):
     return n
 
 
+def input_unchanged(A, A0, viol, case, fam, call):
+    """the approximation routines take the tensor as input only: the caller's array must not change"""
+    if not np.array_equal(A, A0):
+        viol.append(('input-modified fam=%s call=%s' % (fam, call), {'case': case, 'max_change': float(np.abs(A - A0).max())}))
+        A[...] = A0
+        return False
+    return True
+
+
 def ev_aca(case, viol, seed):
     from pyiga import lowrank
     A = dense_of(case)
+    A0 = A.copy()
     nA = max(1.0, nrm(A))
     tag = 'fam=aca'
     n = 0
@@ -132,12 +142,37 @@ def ev_aca(case, viol, seed):
         np.random.seed(seed + case['q'])
         src = A if how == 'array' else lowrank.TensorGenerator(A.shape, entryfunc=lambda I: A[tuple(I)])
         X = lowrank.aca(src, tol=1e-10, maxiter=100, verbose=0)
+        input_unchanged(A, A0, viol, case, 'aca', 'aca(%s)' % how)
         n += 1
         if nrm(X - A) > 1e-9 * nA:
             viol.append(('aca-not-exact %s generic=%s' % (tag, case['generic']),
                          {'case': case, 'err': nrm(X - A), 'how': how}))
+    # a matrix of the same rank with a few vanishing rows in the middle (what a kernel with local support produces):
+    # B = U V^T, U (48 x r) and V (30 x r) with normally distributed entries (generic position with probability one),
+    # rows 24..26 of U zero.  The start row of the cross approximation is a zero row; the algorithm must move on to a
+    # row that carries information.  Its row choice is random, so the requirement is: exact for at least one of three
+    # seeds (the unchanged code fails a single attempt with probability (3/48)^2, all three with 6e-8)
+    if case['rank'] >= 1:
+        rs = np.random.RandomState(1000 + case['q'])
+        U = rs.standard_normal((48, case['rank']))
+        U[24:27, :] = 0.0
+        B = U @ rs.standard_normal((30, case['rank'])).T
+        B0 = B.copy()
+        ok = False
+        for attempt in range(3):
+            np.random.seed(seed + case['q'] + 1000 * attempt)
+            X = lowrank.aca(B, tol=1e-10, maxiter=100, verbose=0)
+            if nrm(X - B) <= 1e-8 * max(1.0, nrm(B)):
+                ok = True
+                break
+        input_unchanged(B, B0, viol, case, 'aca', 'aca(zero-rows)')
+        n += 1
+        if not ok:
+            viol.append(('aca-not-exact fam=aca zero-rows-in-the-middle (3 seeds)',
+                         {'rank': case['rank'], 'err': nrm(X - B), 'shape': list(B.shape)}))
     np.random.seed(seed + case['q'])
     crosses = lowrank.aca_lr(A, tol=1e-10, maxiter=100, verbose=0)
+    input_unchanged(A, A0, viol, case, 'aca', 'aca_lr')
     X = sum((np.outer(c, r) for c, r in crosses), np.zeros(A.shape))
     n += 1
     if nrm(X - A) > 1e-9 * nA:
@@ -149,11 +184,13 @@ def ev_aca(case, viol, seed):
 def ev_aca3d(case, viol, seed):
     from pyiga import lowrank, tensor
     A = dense_of(case)
+    A0 = A.copy()
     nA = max(1.0, nrm(A))
     n = 0
     for lr in (False, True):
         np.random.seed(seed + case['q'])
         X = lowrank.aca_3d(A, tol=1e-10, maxiter=100, verbose=0, lr=lr)
+        input_unchanged(A, A0, viol, case, 'aca3d', 'aca_3d(lr=%s)' % lr)
         X = tensor.asarray(X)
         n += 1
         if X.shape != A.shape or nrm(X - A) > 1e-9 * nA:
@@ -166,6 +203,7 @@ def ev_aca3d(case, viol, seed):
 def ev_greedy(case, viol, seed):
     from pyiga import tensor
     A = dense_of(case)
+    A0 = A.copy()
     nA = nrm(A)
     R = case['rank']
     tol = 10.0 ** (-case['tolexp'])
@@ -175,6 +213,7 @@ def ev_greedy(case, viol, seed):
         return all(errs[i + 1] <= errs[i] * (1 + 1e-10) + 1e-14 for i in range(len(errs) - 1))
     np.random.seed(seed + case['q'])
     X, errs = tensor.grou(A, R, tol=tol, return_errors=True)
+    input_unchanged(A, A0, viol, case, 'greedy', 'grou')
     n += 1
     if not history_ok(errs):
         viol.append(('grou-history-increases fam=greedy', {'case': case, 'errors': errs}))
@@ -185,6 +224,7 @@ def ev_greedy(case, viol, seed):
     np.random.seed(seed + case['q'])
     rtol = 1e-13
     T, errs = tensor.gta(A, R, tol=tol, rtol=rtol, return_errors=True)
+    input_unchanged(A, A0, viol, case, 'greedy', 'gta')
     n += 1
     if not history_ok(errs):
         viol.append(('gta-history-increases fam=greedy', {'case': case, 'errors': errs}))
